@@ -341,9 +341,119 @@ static void op_ed_ell2(int argc, char **argv) {
 #define ED_MAP_OPS
 #endif
 
+
+/* ------------------------------------------------------------------------------------------------------------------ */
+#if defined(WITH_EPX) && defined(WITH_EP)
+#include "relic_epx.h"
+
+static void fp2_out(const fp2_t a) { fp_print_val(a[0]); fputc(':', OUT); fp_print_val(a[1]); }
+
+static void ep2_sprint(char *dst, size_t cap, const ep2_t p) {
+	if (ep2_is_infty(p)) { snprintf(dst, cap, "inf"); return; }
+	ep2_t t; ep2_null(t); ep2_new(t);
+	ep2_norm(t, p);
+	FILE *save = OUT; char *mem = NULL; size_t msz = 0;
+	OUT = open_memstream(&mem, &msz);
+	fp2_out(t->x); fputc(',', OUT); fp2_out(t->y);
+	fclose(OUT); OUT = save;
+	snprintf(dst, cap, "%s", mem);
+	free(mem);
+}
+
+/* ep2_map_param <id> <D|M> : y^2 = x^3 + a x + b over Fp2 = Fp[u]/(u^2 - qnr); elements as c0:c1 */
+static void op_ep2_map_param(int argc, char **argv) {
+	if (argc < 3) { fprintf(OUT, "bad-args\n"); return; }
+	int id = parse_int(argv[1]);
+	volatile int caught = 0;
+	RLC_TRY { ep_param_set(id); ep2_curve_set_twist(argv[2][0] == 'M' ? RLC_EP_MTYPE : RLC_EP_DTYPE); } RLC_CATCH_ANY { caught = 1; }
+	if (take_err() || caught) { fprintf(OUT, "err\n"); return; }
+	ctx_t *ctx = core_get();
+	ep2_t g; bn_t n, h, par; ep2_null(g); ep2_new(g); bn_null(n); bn_new(n); bn_null(h); bn_new(h); bn_null(par); bn_new(par);
+	ep2_curve_get_gen(g); ep2_curve_get_ord(n); ep2_curve_get_cof(h);
+	ep2_norm(g, g);
+	fp_prime_get_par(par);
+	fprintf(OUT, "ep2_map_param id=%d type=%c p=", id, argv[2][0] == 'M' ? 'M' : 'D');
+	raw_print(fp_prime_get(), RLC_FP_DIGS, 0);
+	fprintf(OUT, " qnr=%d", fp_prime_get_qnr());
+	fprintf(OUT, " a="); fp2_out(ep2_curve_get_a());
+	fprintf(OUT, " b="); fp2_out(ep2_curve_get_b());
+	fprintf(OUT, " gx="); fp2_out(g->x); fprintf(OUT, " gy="); fp2_out(g->y);
+	fprintf(OUT, " n="); raw_print(n->dp, n->used, 0);
+	fprintf(OUT, " h="); raw_print(h->dp, h->used, 0);
+	fprintf(OUT, " par="); raw_print(par->dp, par->used, par->sign == RLC_NEG);
+	fprintf(OUT, " pairf=%d level=%d fpbits=%d ctmap=%d twist=%d", ep_curve_is_pairf(), ep_param_level(), (int)FP_PRIME, ep2_curve_is_ctmap(),
+		ep2_curve_is_twist());
+#if EP_MAP == BASIC
+	fprintf(OUT, " mapalg=basic");
+#elif EP_MAP == SSWUM
+	fprintf(OUT, " mapalg=sswum");
+#elif EP_MAP == SWIFT
+	fprintf(OUT, " mapalg=swift");
+#endif
+	fprintf(OUT, " mapu="); fp2_out(ctx->ep2_map_u);
+	for (int i = 0; i < 4; i++) { fprintf(OUT, " c%d=", i); fp2_out(ctx->ep2_map_c[i]); }
+	fprintf(OUT, " frb0="); fp2_out(ctx->ep2_frb[0]); fprintf(OUT, " frb1="); fp2_out(ctx->ep2_frb[1]);
+#ifdef EP_CTMAP
+	if (ep2_curve_is_ctmap()) {
+		iso2_t iso = ep2_curve_get_iso();
+		fprintf(OUT, " isoa="); fp2_out(iso->a);
+		fprintf(OUT, " isob="); fp2_out(iso->b);
+		const char *nm[4] = {"xn", "xd", "yn", "yd"};
+		fp2_t *cf[4] = {iso->xn, iso->xd, iso->yn, iso->yd};
+		int dg[4] = {iso->deg_xn, iso->deg_xd, iso->deg_yn, iso->deg_yd};
+		for (int k = 0; k < 4; k++) {
+			fprintf(OUT, " %s=", nm[k]);
+			for (int i = 0; i <= dg[k] && i < RLC_EPX_CTMAP_MAX; i++) { if (i) fputc(',', OUT); fp2_out(cf[k][i]); }
+		}
+	}
+#endif
+	fputc('\n', OUT);
+}
+
+static int eval_ep2_map(const char *v, const uint8_t *msg, size_t len, int pat, char *out, size_t cap) {
+	volatile int caught = 0;
+	int vi = ep_map_variant(v);
+	if (vi < 0 || vi > 3) return 0;
+	ep2_t p; ep2_null(p); ep2_new(p);
+	memset(p, pat, sizeof(ep2_st));
+	p->coord = BASIC;
+	scribble(pat);
+	RLC_TRY {
+		switch (vi) {
+			case 0: ep2_map(p, msg, len); break;
+			case 1: ep2_map_basic(p, msg, len); break;
+			case 2: ep2_map_sswum(p, msg, len); break;
+			case 3: ep2_map_swift(p, msg, len); break;
+		}
+	} RLC_CATCH_ANY { caught = 1; }
+	if (take_err() || caught) snprintf(out, cap, "err"); else ep2_sprint(out, cap, p);
+	return 1;
+}
+
+/* ep2_map <map|basic|sswum|swift> <msg> */
+static void op_ep2_map(int argc, char **argv) {
+	if (argc < 3) { fprintf(OUT, "bad-args\n"); return; }
+	static uint8_t msg[MSGMAX];
+	static char r1[2048], r2[2048];
+	uint8_t drain[7];
+	int len = bytes_parse(msg, sizeof(msg), argv[2]);
+	if (!eval_ep2_map(argv[1], msg, len, 0x00, r1, sizeof(r1))) { fprintf(OUT, "unknown-ep2_map %s\n", argv[1]); return; }
+	RLC_TRY { rand_bytes(drain, sizeof(drain)); } RLC_CATCH_ANY { }
+	take_err();
+	eval_ep2_map(argv[1], msg, len, 0xC3, r2, sizeof(r2));
+	fprintf(OUT, "%s", r1);
+	if (strcmp(r1, r2)) fprintf(OUT, " NONDET(%s)", r2);
+	fputc('\n', OUT);
+}
+#define EP2_MAP_OPS {"ep2_map_param", op_ep2_map_param}, {"ep2_map", op_ep2_map},
+#else
+#define EP2_MAP_OPS
+#endif
+
 const op_t ops_map[] = {
 	{"ep_map_param", op_ep_map_param}, {"ep_map", op_ep_map}, {"ep_map_rnd", op_ep_map_rnd},
 	EB_MAP_OPS
 	ED_MAP_OPS
+	EP2_MAP_OPS
 	{NULL, NULL}
 };
